@@ -129,34 +129,63 @@ def run(ctx, rep):
 
 
 def _o4_probability(ctx, rep):
+    from ..astutil import deep_inline
+    from ..symsum import subst
     h = ctx.ix.func(OP + "_compose_qoperations_MProcess_State_for_States")
     a, b = h.params[0], h.params[1]
     loops = [n for n in own_nodes(h.node) if isinstance(n, ast.For) and unparse(n.iter) == "%s.hss" % a]
-    if len(loops) != 2:
-        rep.undecided("O4", h, "probability", "expected the two basis branches")
+    if not loops:
+        rep.undecided("O4", h, "probability", "no loop over the outcomes of the measurement process")
         return
+    # local helpers (possibly defined once per basis branch) that compute the probability from the unnormalised post-state
+    helpers = {}
+    for n in ast.walk(h.node):
+        if isinstance(n, ast.FunctionDef) and n is not h.node:
+            body = [x for x in n.body if not (isinstance(x, ast.Expr) and isinstance(x.value, ast.Constant))]
+            if len(body) == 1 and isinstance(body[0], ast.Return) and body[0].value is not None:
+                helpers.setdefault(n.name, []).append((n, body[0].value))
+    n_forms = 0
     for lp in loops:
+        lv = unparse(lp.target)
         defs = {unparse(s.targets[0]): s.value for s in lp.body if isinstance(s, ast.Assign)}
-        mx = defs.get("Mx_rho")
-        px = defs.get("p_x")
-        ok_mx = mx is not None and unparse(mx) == "hs @ %s.vec" % b
-        if not ok_mx:
-            rep.violation("O4", h, lp, "unnormalised post-state is %s, expected hs @ state.vec" % (unparse(mx) if mx is not None else None), node=lp)
+        # the unnormalised post-state: the local defined as <loop var> @ <state>.vec
+        mx_name = next((k for k, v in defs.items() if unparse(v) == "%s @ %s.vec" % (lv, b)), None)
+        if mx_name is None:
+            cand = {k: unparse(v) for k, v in defs.items() if "@" in unparse(v)}
+            rep.violation("O4", h, lp, "unnormalised post-state is %s, expected %s @ %s.vec" % (cand or None, lv, b), node=lp)
             continue
-        t = unparse(px) if px is not None else ""
-        if "Mx_rho[0]" in t:
-            try:
-                coef = px.left if isinstance(px, ast.BinOp) and unparse(px.right) == "Mx_rho[0]" else (px.right if isinstance(px, ast.BinOp) else None)
-                c = _size_poly(coef, h)
-                ok = c == Poly.sym("d") ** __import__("fractions").Fraction(1, 2)
-                rep.check(ok, "O4", h, "p_x = %s" % t, "trace functional in an identity-first orthonormal basis: sqrt(d) * (M rho)[0]",
-                          "probability is %r * (M rho)[0]; the trace of the post-state is sqrt(d) * coefficient 0" % c, node=px)
-            except Undecided as e:
-                rep.undecided("O4", h, "p_x = %s" % t, str(e))
-        elif t == "np.vdot(I_vec_gb, Mx_rho)":
-            rep.holds("O4", h, "p_x = %s" % t, "trace functional <I, M rho> in a general basis", node=px)
-        else:
-            rep.violation("O4", h, "p_x = %s" % t, "probability is not the trace functional of the unnormalised post-state", node=px if px is not None else lp)
+        # the probability: the local that is later compared with eps_zero / appended next to the post-state
+        px_name = next((k for k, v in defs.items() if k != mx_name and any(isinstance(x, ast.Name) and x.id == mx_name for x in ast.walk(v))), None)
+        if px_name is None:
+            rep.undecided("O4", h, lp, "no probability computed from %s" % mx_name)
+            continue
+        px = defs[px_name]
+        forms = [px]
+        if isinstance(px, ast.Call) and isinstance(px.func, ast.Name) and px.func.id in helpers and len(px.args) == 1 and not px.keywords:
+            forms = []
+            for fn, ret in helpers[px.func.id]:
+                prm = [x.arg for x in fn.args.args]
+                if len(prm) == 1:
+                    forms.append(subst(ret, {prm[0]: px.args[0]}))
+        for e in forms:
+            n_forms += 1
+            t = unparse(e)
+            if "%s[0]" % mx_name in t and isinstance(e, ast.BinOp) and isinstance(e.op, ast.Mult):
+                try:
+                    coef = e.left if unparse(e.right) == "%s[0]" % mx_name else (e.right if unparse(e.left) == "%s[0]" % mx_name else None)
+                    c = _size_poly(coef, h)
+                    ok = c == Poly.sym("d") ** __import__("fractions").Fraction(1, 2)
+                    rep.check(ok, "O4", h, "p_x = %s" % t, "trace functional in an identity-first orthonormal basis: sqrt(d) * (M rho)[0]",
+                              "probability is %r * (M rho)[0]; the trace of the post-state is sqrt(d) * coefficient 0" % c, node=e)
+                except Undecided as ex:
+                    rep.undecided("O4", h, "p_x = %s" % t, str(ex))
+            elif isinstance(e, ast.Call) and (dotted(e.func) or "") in ("np.vdot", "np.dot", "np.inner") and len(e.args) == 2 \
+                    and unparse(e.args[1]) == mx_name and "I_vec" in unparse(e.args[0]):
+                rep.holds("O4", h, "p_x = %s" % t, "trace functional <I, M rho> in a general basis", node=e)
+            else:
+                rep.violation("O4", h, "p_x = %s" % t, "probability is not the trace functional of the unnormalised post-state", node=px)
+    if n_forms == 0:
+        rep.undecided("O4", h, "probability", "no probability expression recognised")
     # post state = Mx_rho / p_x with the same pair
     z = [n for n in own_nodes(h.node) if isinstance(n, ast.For) and unparse(n.iter) == "zip(Mx_rhos, ps)"]
     ok = False
